@@ -356,3 +356,103 @@ Example C20_nonvacuous_footprint :
   site_static_ok (mkSite 0 "util.py"%string 10 10 PCheckThenAct BGlobal false) = true /\
   site_static_ok (mkSite 0 "writer.py"%string 10 10 PMutCall BGlobal true) = true.
 Proof. vm_compute. repeat split; reflexivity. Qed.
+
+(* ============================================================================================ *)
+(* deletion of a location (lifted value space: None = tombstone; Footprint.v section 6) and the class Multi *)
+(* ============================================================================================ *)
+(* C20_footprint_confluence above now also covers the class Multi P (a location that may hold nothing or any value
+   satisfying P at any time, written by anybody with such values, every reader coping with every answer). *)
+
+(* invalidation (Del) is a legal action on a cache location, and the no-read-back use copes with it *)
+Theorem C20_del_cache_disciplined :
+  forall (W R : Type) (cls : N -> lclass (option W)) (base : store (option W)) i k ks g (cont : W -> prog (option W) R) pv kn r pf,
+    cls k = Multi (cacheP (g (map base ks))) -> (forall x, In x ks -> cls x = Frozen) ->
+    (forall kn', okp cls base i pv kn' (cont (g (map base ks))) r pf) ->
+    okp cls base i pv kn (use_cache k ks g cont) r pf /\
+    (forall p, okp cls base i pv kn p r pf -> okp cls base i pv kn (Del k p) r pf).
+Proof.
+  intros W R cls base i k ks g cont pv kn r pf M Fz Hc. split.
+  - exact (okp_use_cache W R cls base i k ks g cont pv kn r pf M Fz Hc).
+  - intros p Hp. exact (okp_del_cache W R cls base i k _ p pv kn r pf M Hp).
+Qed.
+Print Assumptions C20_del_cache_disciplined.
+
+(* any number of invalidators and no-read-back users of one cache, EVERY schedule: users obtain the one value *)
+Theorem C20_del_invalidate_confluent :
+  forall (W R : Type) (cls : N -> lclass (option W)) (base : store (option W))
+         (k : N) (ks : list N) (g : list (option (option W)) -> W) (out : W -> R) (r0 : R)
+         (is_user : nat -> bool) (s0 : store (option W)),
+    cls k = Multi (cacheP (g (map base ks))) -> (forall x, In x ks -> cls x = Frozen) ->
+    consistentc cls base s0 ->
+    let ps : pool (option W) R := fun i => if is_user i then use_cache k ks g (fun w => Ret (out w)) else Del k (Ret r0) in
+    forall sched i r, result (exec sched (init ps s0)) i = Some r ->
+      r = (if is_user i then out (g (map base ks)) else r0).
+Proof. exact del_invalidate_confluent. Qed.
+Print Assumptions C20_del_invalidate_confluent.
+
+(* deleting a location that is only ever deleted is an idempotent write (the tombstone is its one value) *)
+Theorem C20_del_only_confluent :
+  forall (W R : Type) (cls : N -> lclass (option W)) (base : store (option W)) i k (p : prog (option W) R) pv kn r pf,
+    cls k = Idem None -> okp cls base i pv (addk k kn) p r pf -> okp cls base i pv kn (Del k p) r pf.
+Proof. exact okp_del_only. Qed.
+Print Assumptions C20_del_only_confluent.
+
+(* refuted: hasattr-then-getitem against an invalidator (seeded C20-6): KeyError; the no-read-back use under the same
+   schedule is fine; the deletion is a destructive write *)
+Theorem C20_del_readback_refuted :
+  let s0 : store (option N) := upd (fun _ => None) 7%N (Some 42%N) in
+  let reader : prog (option N) N := use_cache_readback 7%N [] (fun _ => 42%N) 999%N (fun w => Ret w) in
+  let deleter : prog (option N) N := Del 7%N (Ret 0%N) in
+  result (exec [0; 1; 0] (init (fun i => match i with 0 => reader | _ => deleter end) s0)) 0 = Some 999%N /\
+  fst (solo reader s0) = 42%N /\
+  result (exec [0; 1; 0] (init (fun i => match i with 0 => use_cache 7%N [] (fun _ => 42%N) (fun w => Ret w) | _ => deleter end) s0)) 0
+    = Some 42%N /\
+  In KDestructiveWrite (kinds (fun a b : option N => match a, b with Some x, Some y => N.eqb x y | None, None => true | _, _ => false end)
+                              [0; 1] (init (fun i => match i with 0 => reader | _ => deleter end) s0)).
+Proof. exact del_readback_refuted. Qed.
+Print Assumptions C20_del_readback_refuted.
+
+(* the monitor's view: a removal is classified ERemove, never accepted for a non-volatile location; relative to a set of
+   volatile (Multi) locations the check is sound for all others *)
+Theorem C20_removal_classified : forall e a, e_old e = Some a -> e_new e = None -> ev_kind e = ERemove /\ ev_ok e = false.
+Proof. intros e a H1 H2. split; [exact (removal_kind e a H1 H2)|exact (removal_rejected e H2)]. Qed.
+Print Assumptions C20_removal_classified.
+
+Theorem C20_footprint_check_vol_sound : forall vol evs, footprint_ok_vol vol evs = true ->
+  exists memo : N -> option N, forall e, In e evs -> vol (e_key e) = false -> ev_legal memo e /\ pat_refuted (e_pat e) = false.
+Proof. exact footprint_ok_vol_sound. Qed.
+Print Assumptions C20_footprint_check_vol_sound.
+
+(* ============================================================================================ *)
+(* the READ side, over a table "operation -> slots read / slots written" (regenerated by translators/opreads.py;   *)
+(* instantiated on the regenerated table in genproofs/GenOpReadsProofs.v on every run)                             *)
+(* ============================================================================================ *)
+From Pq Require Import Conc.OpTable Proofs.OpTableProofs.
+
+(* for ANY table in which no operation reads a slot that some operation writes non-idempotently, every operation - as the
+   program its row denotes - is disciplined under the classification the whole table induces (never written: Frozen;
+   written idempotently: Idem; written non-idempotently: Multi), with a pure function of the frozen slots as result *)
+Theorem C20_table_ops_disciplined :
+  forall (V R : Type) (f : N -> list (option V) -> V) (jv : N -> V) (err : R) (out : list (option V) -> R) (base : store V)
+         (tbl : list oprow) (i : nat) (r : oprow) pv kn,
+    table_disciplined tbl = true -> In r tbl ->
+    okp (cls_tbl V f base tbl) base i pv kn (row_prog V R f jv err out tbl r) (row_pure V R f out base tbl r) pv.
+Proof. exact row_prog_disciplined. Qed.
+Print Assumptions C20_table_ops_disciplined.
+
+Theorem C20_table_ops_confluent :
+  forall (V R : Type) (f : N -> list (option V) -> V) (jv : N -> V) (err : R) (out : list (option V) -> R) (base : store V)
+         (tbl : list oprow) (rows : nat -> oprow) (s0 : store V),
+    table_disciplined tbl = true -> (forall i, In (rows i) tbl) -> consistentc (cls_tbl V f base tbl) base s0 ->
+    forall sched i r,
+      result (exec sched (init (fun j => row_prog V R f jv err out tbl (rows j)) s0)) i = Some r ->
+      r = row_pure V R f out base tbl (rows i).
+Proof. exact table_ops_confluent. Qed.
+Print Assumptions C20_table_ops_confluent.
+
+(* non-vacuity: a two-row table (reader of slots 0 and 1; memoiser of slot 1 that also bumps a counter slot 2 nobody reads)
+   is disciplined; the same table with a row reading the counter is not *)
+Example C20_nonvacuous_table :
+  table_disciplined [mkRow "read" [0; 1]%N []; mkRow "memo" [0; 1]%N [(1%N, PCheckThenAct); (2%N, PAugmented)]] = true /\
+  table_disciplined [mkRow "read" [0; 2]%N []; mkRow "memo" [0; 1]%N [(1%N, PCheckThenAct); (2%N, PAugmented)]] = false.
+Proof. vm_compute. split; reflexivity. Qed.
